@@ -1,4 +1,4 @@
-CONSTANTS MaxNT = 3 MaxNS = 3 MaxNW = 5 Strategies = {"towers", "time", "both"} ParentThreadSet = {1, 4}
+CONSTANTS MaxNT = 3 MaxNS = 3 MaxNW = 5 Strategies = {"towers", "time", "both", "serial", "cli"} ParentThreadSet = {1, 4}
   Collect = "position" SliceStep = "NS" WorkerInit = TRUE
 INIT TInit
 NEXT TNext
